@@ -3,7 +3,7 @@
    on every run. *)
 From Coq Require Import ZArith List Bool Reals.
 From Flocq Require Import Core.Core IEEE754.BinarySingleNaN IEEE754.Binary IEEE754.Bits.
-From GD Require Import C06.Convert C06.ConvertProofs C06.SpecProofs Gen.ConvTable.
+From GD Require Import C06.Convert C06.ConvertProofs C06.SpecProofs C06.ConstChange Gen.ConvTable Gen.ConstChange.
 Import ListNotations.
 Local Open Scope Z_scope.
 
@@ -116,3 +116,34 @@ Example conversion_correct_nonvacuous :
   spec_conv T_INT32 T_FLOAT32 [16777217] = Some [1266679808] /\                 (* 2^24+1 -> 2^24 *)
   spec_conv T_COMPLEX128 T_INT8 [13830554455654793216; 4607182418800017408] = Some [255]. (* -1.0+1.0i -> -1 *)
 Proof. vm_compute. repeat split. Qed.
+
+
+(* 4. CONST / CARRAY access.  The tables are regenerated on every run by translate/tr_constchange.py from
+      _GD_ConstType (src/parse.c) and from the CONST and CARRAY cases of _GD_Change (src/mod.c). *)
+
+(* every declared type is stored in a type of the same kind that is at least as wide *)
+Theorem const_storage_type_holds_every_value : const_storage_ok const_storage = true.
+Proof. vm_compute. reflexivity. Qed.
+
+(* every cell of the hand-written CONST type change passes the decision procedure between the two storage types *)
+Theorem const_type_change_all_cells_ok : const_change_ok const_storage const_change_table = true.
+Proof. vm_compute. reflexivity. Qed.
+
+(* hence gd_alter_const & co. convert the stored value exactly as the C conversion between the storage types
+   does, for every pair of declared types and every stored value on which that conversion is defined *)
+Theorem const_type_change_correct :
+  forall old new so sn comps r,
+    storage_of const_storage old = Some so -> storage_of const_storage new = Some sn -> gdtype_eqb so sn = false ->
+    spec_conv so sn comps = Some r ->
+    exists c, lookup const_change_table old new = Some c /\ eval_cell c so sn comps = Some r.
+Proof. exact (const_change_sound const_storage const_change_table const_type_change_all_cells_ok). Qed.
+
+(* a CARRAY type change goes through _GD_ConvertType between the storage types, to which
+   conversion_correct applies *)
+Theorem carray_type_change_uses_the_conversion_table : carray_change_uses_convert_type = true.
+Proof. reflexivity. Qed.
+
+Example const_type_change_nonvacuous :
+  storage_of const_storage T_INT8 = Some T_INT64 /\ storage_of const_storage T_COMPLEX64 = Some T_COMPLEX128 /\
+  spec_conv T_INT64 T_COMPLEX128 [18446744073709551611] = Some [13840687554816376832; 0].   (* -5 -> -5.0 + 0i *)
+Proof. vm_compute. repeat split; reflexivity. Qed.
